@@ -1,4 +1,5 @@
 import Model.DiskFS
+import Proofs.C12
 /-!
 # C04 — a crash at any point never loses an acknowledged message (disk queue)
 
@@ -142,15 +143,12 @@ theorem take_dump (k c : Nat) (dst : Path) (ct : Content) (n : Nat) :
     apply List.take_of_length_le
     simp [dump]; omega
 
-/-- **A meta update cut at any point leaves the old or the new meta, never anything else**, and
-    the envelope untouched: attempts, timestamp and delivered recipients are the value before or
-    after the operation in progress. -/
-theorem crash_in_meta_update (fs : FS) (k c1 c2 : Nat) (op : Op) (id e : Nat) (m : Meta)
+/-- The sharp form: up to and including the last chunk of the temp file the old meta is recovered, from the rename on the new one. -/
+theorem meta_update_cut (fs : FS) (k c1 c2 : Nat) (op : Op) (id e : Nat) (m : Meta)
     (hop : op = .setTs id (match op with | .setTs _ t => t | _ => 0) ∨ op = .incr id ∨
            op = .deliver id (match op with | .deliver _ l => l | _ => []))
     (hr : recover fs id = some (e, m)) (n : Nat) :
-    recover (crashAt fs k c1 c2 op n) id = some (e, m) ∨
-    recover (crashAt fs k c1 c2 op n) id = some (e, newMeta m op) := by
+    recover (crashAt fs k c1 c2 op n) id = some (e, if n ≤ c1 + 1 then m else newMeta m op) := by
   have hmeta : fsGet (.mfile id) fs = some (.metaC m) ∧ fsGet (.env id) fs = some (.envelope e) := by
     simp only [recover] at hr
     split at hr
@@ -163,13 +161,13 @@ theorem crash_in_meta_update (fs : FS) (k c1 c2 : Nat) (op : Op) (id e : Nat) (m
     rcases hop with h | h | h <;> (rw [h]; simp only [effectsOf, Op.id, hmeta.1])
   simp only [crashAt, heff]
   by_cases hn : n ≤ c1 + 1
-  · left
+  · rw [if_pos hn]
     have := foreign_effects_harmless id ((dump k c1 (.mfile id) (.metaC (newMeta m op))).take n) fs (by
       intro x hx
       rw [(take_dump k c1 _ _ n).1 hn x hx]
       exact ⟨by simp, by simp⟩)
     rw [this, hr]
-  · right
+  · rw [if_neg hn]
     rw [(take_dump k c1 _ _ n).2 (by omega)]
     -- all effects applied: temp-file effects are foreign, the rename installs the new meta
     simp only [dump, applyAll, List.foldl_append, List.foldl_cons, List.foldl_nil]
@@ -197,6 +195,20 @@ theorem crash_in_meta_update (fs : FS) (k c1 c2 : Nat) (op : Op) (id e : Nat) (m
         simp at h0; rw [h1, h0.1]
       · simp at h0
     rw [henv]
+
+/-- **A meta update cut at any point leaves the old or the new meta, never anything else**, and
+    the envelope untouched: attempts, timestamp and delivered recipients are the value before or
+    after the operation in progress. -/
+theorem crash_in_meta_update (fs : FS) (k c1 c2 : Nat) (op : Op) (id e : Nat) (m : Meta)
+    (hop : op = .setTs id (match op with | .setTs _ t => t | _ => 0) ∨ op = .incr id ∨
+           op = .deliver id (match op with | .deliver _ l => l | _ => []))
+    (hr : recover fs id = some (e, m)) (n : Nat) :
+    recover (crashAt fs k c1 c2 op n) id = some (e, m) ∨
+    recover (crashAt fs k c1 c2 op n) id = some (e, newMeta m op) := by
+  rw [meta_update_cut fs k c1 c2 op id e m hop hr n]
+  split
+  · exact Or.inl rfl
+  · exact Or.inr rfl
 
 /-- **A write becomes visible only complete**: after all its effects the message is recovered with
     the written envelope, attempt count 0 and its timestamp. -/
@@ -231,6 +243,176 @@ theorem crash_in_remove (fs : FS) (k c1 c2 id : Nat) (n : Nat) (hn : 1 ≤ n) :
     simp only [List.foldl_nil, recover]
     rw [fsGet_applyEffect (.env id) _ (.unlink (.mfile id)) (by simp [target]) (by intro k; simp), h1]
 
+/-! ## Histories: an acknowledged message survives whatever the queue does afterwards, and a crash at any point of it
+
+The theorems above are about one operation. A message is acknowledged once its `write` has completed (C02:
+`no_reply_before_writes_complete`); from then on the queue runs any number of further operations — writes and removals of
+other messages, attempt counters, new due times and delivered marks of this one — and the process may die at any effect of
+any of them. -/
+
+structure Step where
+  op : Op
+  k : Nat
+  c1 : Nat
+  c2 : Nat
+deriving Repr, DecidableEq
+
+/-- One operation carried out completely. -/
+def exec (fs : FS) (s : Step) : FS := applyAll fs (effectsOf fs s.k s.c1 s.c2 s.op)
+
+def execAll (fs : FS) (l : List Step) : FS := l.foldl exec fs
+
+/-- Everything the queue may do while it holds message `id`: anything about another message, and for this one a new due time,
+    the attempt counter, delivered marks — not a second write of the same id (ids are fresh) and not its removal (which is the
+    queue's decision that the message is finished). -/
+def Allowed (id : Nat) (op : Op) : Prop :=
+  op.id ≠ id ∨ (op = .setTs id (match op with | .setTs _ t => t | _ => 0) ∨ op = .incr id ∨
+                op = .deliver id (match op with | .deliver _ l => l | _ => []))
+
+/-- The meta the completed operations leave for `id`. -/
+def metaAfter (id : Nat) (m : Meta) (l : List Step) : Meta :=
+  l.foldl (fun m s => if s.op.id = id then newMeta m s.op else m) m
+
+theorem crashAt_all (fs : FS) (s : Step) : crashAt fs s.k s.c1 s.c2 s.op ((effectsOf fs s.k s.c1 s.c2 s.op).length) = exec fs s := by
+  simp [crashAt, exec]
+
+theorem effects_meta_length (fs : FS) (k c1 c2 : Nat) (op : Op) (id : Nat) (m : Meta)
+    (hop : op = .setTs id (match op with | .setTs _ t => t | _ => 0) ∨ op = .incr id ∨
+           op = .deliver id (match op with | .deliver _ l => l | _ => []))
+    (hm : fsGet (.mfile id) fs = some (.metaC m)) : (effectsOf fs k c1 c2 op).length = c1 + 2 := by
+  rcases hop with h | h | h <;> (rw [h]; simp [effectsOf, Op.id, hm, dump])
+
+theorem recover_meta {fs : FS} {id e : Nat} {m : Meta} (hr : recover fs id = some (e, m)) :
+    fsGet (.mfile id) fs = some (.metaC m) := by
+  simp only [recover] at hr
+  split at hr
+  · rename_i e' m' h1 h2
+    simp at hr; obtain ⟨rfl, rfl⟩ := hr
+    exact h2
+  · simp at hr
+
+/-- A completed allowed operation: the envelope stays, the meta is what the operation makes of it. -/
+theorem exec_allowed (fs : FS) (s : Step) (id e : Nat) (m : Meta) (ha : Allowed id s.op) (hr : recover fs id = some (e, m)) :
+    recover (exec fs s) id = some (e, if s.op.id = id then newMeta m s.op else m) := by
+  rw [← crashAt_all]
+  rcases ha with hne | hop
+  · rw [crash_in_other_operation fs s.k s.c1 s.c2 s.op id hne, if_neg hne, hr]
+  · have hid : s.op.id = id := by rcases hop with h | h | h <;> (rw [h]; rfl)
+    rw [meta_update_cut fs s.k s.c1 s.c2 s.op id e m hop hr, effects_meta_length fs s.k s.c1 s.c2 s.op id m hop (recover_meta hr),
+      if_pos hid, if_neg (by omega)]
+
+theorem execAll_allowed (fs : FS) (l : List Step) (id e : Nat) (m : Meta) (hl : ∀ s ∈ l, Allowed id s.op)
+    (hr : recover fs id = some (e, m)) : recover (execAll fs l) id = some (e, metaAfter id m l) := by
+  induction l generalizing fs m with
+  | nil => simpa [execAll, metaAfter] using hr
+  | cons s rest ih =>
+    simp only [execAll, metaAfter, List.foldl_cons]
+    exact ih (exec fs s) _ (fun x hx => hl x (by simp [hx])) (exec_allowed fs s id e m (hl s (by simp)) hr)
+
+/-- **An acknowledged message survives every history and a crash at any point of it** (the property over histories): once the
+    write of message `id` has completed — whatever the directories held before —, after any number of completed further
+    operations (anything about other messages; due times, attempt counters and delivered marks of this one) and with the process
+    dying `n` effects into yet another one, for every `n`: a fresh `DiskStorage` over the directories recovers the message with
+    the envelope that was written, and its meta is exactly what the completed operations made of it — or that with the
+    interrupted operation applied as well; nothing in between, nothing older. -/
+theorem acknowledged_message_survives (fs0 : FS) (k c1 c2 id e ts : Nat) (later : List Step) (last : Step)
+    (hl : ∀ s ∈ later, Allowed id s.op) (hlast : Allowed id last.op) (n : Nat) :
+    let fs := execAll (exec fs0 ⟨.write id e ts, k, c1, c2⟩) later
+    let m := metaAfter id ⟨ts, 0, []⟩ later
+    recover (crashAt fs last.k last.c1 last.c2 last.op n) id = some (e, m) ∨
+    recover (crashAt fs last.k last.c1 last.c2 last.op n) id = some (e, newMeta m last.op) := by
+  intro fs m
+  have h0 : recover (exec fs0 ⟨.write id e ts, k, c1, c2⟩) id = some (e, ⟨ts, 0, []⟩) := write_complete fs0 k c1 c2 id e ts
+  have hr : recover fs id = some (e, m) := execAll_allowed _ later id e _ hl h0
+  rcases hlast with hne | hop
+  · left; rw [crash_in_other_operation fs last.k last.c1 last.c2 last.op id hne, hr]
+  · exact crash_in_meta_update fs last.k last.c1 last.c2 last.op id e m hop hr n
+
+/-- … and the attempt counter a recovered message shows is never behind the completed `increment_attempts` calls (so a
+    restart cannot reset the retry schedule of a message): it counts exactly those, plus the interrupted one if its rename
+    happened. -/
+theorem metaAfter_attempts (id : Nat) (m : Meta) (l : List Step) :
+    (metaAfter id m l).attempts = m.attempts + (l.filter fun s => s.op == .incr id).length := by
+  induction l generalizing m with
+  | nil => simp [metaAfter]
+  | cons s rest ih =>
+    simp only [metaAfter, List.foldl_cons] at ih ⊢
+    rw [ih]
+    by_cases h : s.op = .incr id
+    · simp [h, Op.id, newMeta]; omega
+    · have hb : (s.op == Op.incr id) = false := by simpa using h
+      simp only [List.filter_cons, hb]
+      split
+      · rename_i hid
+        cases hop : s.op <;> simp_all [newMeta, Op.id]
+      · simp
+
+/-! ## The restart (C04 ∘ C12): the new queue has the acknowledged message in its timetable
+
+`Queue._load_all` asks a fresh `DiskStorage` for `(timestamp, id)` of everything it finds and announces each to the scheduler. -/
+section restart
+open Slimta.Sched
+
+/-- What `load()` of a fresh `DiskStorage` over the directories yields, for the ids that ever existed. -/
+def loadOf (fs : FS) (ids : List Nat) : List (Nat × Nat) :=
+  ids.filterMap fun id => (recover fs id).map fun p => (id, p.2.ts)
+
+theorem loadOf_fst (fs : FS) (ids : List Nat) : ∀ x ∈ (loadOf fs ids).map (·.1), x ∈ ids := by
+  intro x hx
+  simp only [loadOf, List.mem_map, List.mem_filterMap, Option.map_eq_some_iff] at hx
+  obtain ⟨⟨a, b⟩, ⟨i, hi, p, _, hp⟩, rfl⟩ := hx
+  simp only [Prod.mk.injEq] at hp
+  rw [← hp.1]; exact hi
+
+theorem loadOf_nodup (fs : FS) (ids : List Nat) (h : ids.Nodup) : ((loadOf fs ids).map (·.1)).Nodup := by
+  induction ids with
+  | nil => simp [loadOf]
+  | cons i rest ih =>
+    have hr := ih (List.nodup_cons.mp h).2
+    simp only [loadOf, List.filterMap_cons]
+    cases hrec : recover fs i with
+    | none => simpa [loadOf] using hr
+    | some p =>
+      simp only [Option.map_some, List.map_cons, List.nodup_cons]
+      refine ⟨fun hm => (List.nodup_cons.mp h).1 (loadOf_fst fs rest i hm), hr⟩
+
+theorem mem_loadOf {fs : FS} {ids : List Nat} {id e : Nat} {m : Meta} (hr : recover fs id = some (e, m)) (hid : id ∈ ids) :
+    (id, m.ts) ∈ loadOf fs ids := by
+  simp only [loadOf, List.mem_filterMap, Option.map_eq_some_iff]
+  exact ⟨id, hid, (e, m), hr, rfl⟩
+
+/-- **After the crash the restarted queue knows the acknowledged message and has it in its timetable** (C04 ∘ C12): under the
+    hypotheses of `acknowledged_message_survives`, a queue started on what a fresh `DiskStorage` loads from the directories
+    finds the message with a due time, the announcement of it is a step of the scheduler model, and after that step the message
+    is known, stored and scheduled with the loop due to wake — from where `C12.never_forgotten` and `C12.due_is_dispatched`
+    carry it through every later state. -/
+theorem restarted_queue_schedules_acknowledged (fs0 : FS) (k c1 c2 id e ts : Nat) (later : List Step) (last : Step)
+    (hl : ∀ s ∈ later, Allowed id s.op) (hlast : Allowed id last.op) (n : Nat) (ids : List Nat) (hnd : ids.Nodup) (hid : id ∈ ids) :
+    let fs := crashAt (execAll (exec fs0 ⟨.write id e ts, k, c1, c2⟩) later) last.k last.c1 last.c2 last.op n
+    ((loadOf fs ids).map (·.1)).Nodup ∧
+    ∃ due s, (id, due) ∈ loadOf fs ids ∧ Sched.step (C12.start (loadOf fs ids)) (.announce id due) = some s ∧
+      C12.Reach (C12.start (loadOf fs ids)) s ∧ id ∈ s.known ∧ id ∈ sIds s ∧ C12.Whereabouts s id := by
+  intro fs
+  refine ⟨loadOf_nodup fs ids hnd, ?_⟩
+  have hsurv := acknowledged_message_survives fs0 k c1 c2 id e ts later last hl hlast n
+  obtain ⟨m, hm⟩ : ∃ m, recover fs id = some (e, m) := by
+    rcases hsurv with h | h <;> exact ⟨_, h⟩
+  have hmem := mem_loadOf hm hid
+  have hstep : Sched.step (C12.start (loadOf fs ids)) (.announce id m.ts) =
+      some (addQueued { C12.start (loadOf fs ids) with known := [id] } m.ts id) := by
+    simp [Sched.step, C12.start, hmem]
+  refine ⟨m.ts, _, hmem, hstep, ?_, ?_, ?_, ?_⟩
+  · exact C12.Reach.step C12.Reach.init (by simp [C12.calm, C12.start, dIds]) hstep
+  · simp [addQueued, C12.start]
+  · simp only [addQueued, C12.start, sIds]
+    simp only [List.contains_nil, Bool.or_self, Bool.false_eq_true, if_false, List.mem_map]
+    exact ⟨(id, m.ts), hmem, rfl⟩
+  · refine C12.Whereabouts.scheduled m.ts ?_ (Or.inr (Or.inl ?_))
+    · simp [addQueued, C12.start, insort]
+    · simp [addQueued, C12.start]
+
+end restart
+
 /-! ### non-vacuity -/
 
 example : recover (applyAll [] (effectsOf [] 0 2 1 (.write 5 9 100))) 5 = some (9, ⟨100, 0, []⟩) := by decide
@@ -240,5 +422,14 @@ example : recover (crashAt (applyAll [] (effectsOf [] 0 2 1 (.write 5 9 100))) 2
 
 example : recover (crashAt (applyAll [] (effectsOf [] 0 2 1 (.write 5 9 100))) 2 1 1 (.incr 5) 3) 5
     = some (9, ⟨100, 1, []⟩) := by decide
+
+/-- a history: write 5, another message written, 5's counter raised twice and a recipient marked, message 7 removed; the process
+    dies one effect into a new due time for 5 -/
+example :
+    let later : List Step := [⟨.write 7 3 50, 2, 1, 1⟩, ⟨.incr 5, 4, 2, 0⟩, ⟨.deliver 5 [1], 6, 1, 0⟩, ⟨.incr 5, 8, 1, 0⟩, ⟨.remove 7, 0, 0, 0⟩]
+    let fs := execAll (exec [] ⟨.write 5 9 100, 0, 2, 1⟩) later
+    recover (crashAt fs 10 1 0 (.setTs 5 400) 1) 5 = some (9, ⟨100, 2, [1]⟩) ∧
+    recover (crashAt fs 10 1 0 (.setTs 5 400) 3) 5 = some (9, ⟨400, 2, [1]⟩) ∧
+    recover fs 7 = none ∧ metaAfter 5 ⟨100, 0, []⟩ later = ⟨100, 2, [1]⟩ := by decide
 
 end Slimta.C04
